@@ -41,6 +41,8 @@ type c09Cfg struct {
 	// PanicSink: a synchronous sink registered before the observing one panics on every batch; the engine recovers
 	// such panics, and what the observing sink is given is what it is given without the panicking neighbour
 	PanicSink bool `json:"panicking_neighbour_sink,omitempty"`
+	// NestedKey: the grouping column is the nested path d.x (selected AS k); the key value sits one level down in the row
+	NestedKey bool `json:"nested_path_key,omitempty"`
 }
 
 func c09Opts(cfg c09Cfg) detOpts {
@@ -86,6 +88,7 @@ func c09Configs(tier string) []c09Cfg {
 	for _, n := range []int{2, 3} {
 		out = append(out, c09Cfg{N: n, Cols: 1, Eager: true, MaxL: maxL - 1, Stats: true})
 		out = append(out, c09Cfg{N: n, Cols: 1, Eager: false, MaxL: maxL - 1, PanicSink: true})
+		out = append(out, c09Cfg{N: n, Cols: 1, Eager: true, MaxL: maxL - 1, NestedKey: true})
 	}
 	return out
 }
@@ -142,6 +145,9 @@ func c09SQL(cfg c09Cfg) string {
 	with := ""
 	if cfg.TTL != "" {
 		with = " WITH (STATETTL='" + cfg.TTL + "')"
+	}
+	if cfg.NestedKey {
+		return fmt.Sprintf("SELECT d.x AS k, count(*) AS c, collect(id) AS ids, first_value(id) AS f, last_value(id) AS l FROM stream GROUP BY d.x, CountingWindow(%d)", cfg.N) + with
 	}
 	if cfg.Func {
 		return fmt.Sprintf("SELECT k, upper(k2) AS k2, count(*) AS c, collect(id) AS ids, first_value(id) AS f, last_value(id) AS l FROM stream GROUP BY k, upper(k2), CountingWindow(%d)", cfg.N) + with
@@ -260,6 +266,9 @@ func c09Feed(cfg c09Cfg, seq []int) func(e *Env) {
 			for kk, vv := range keys[k] {
 				row[kk] = vv
 			}
+			if cfg.NestedKey {
+				row = Row{"id": i + 1, "k": "top-level", "d": map[string]any{"x": keys[k]["k"], "y": i}}
+			}
 			e.Emit(row)
 			if cfg.Stats {
 				e.S.GetStats()
@@ -376,7 +385,11 @@ func (c09) Run(u fw.Unit) fw.Result {
 			a.fail("C09|det|"+r.Status.String(), "execution ended with "+r.Status.String()+" "+firstLine(r.Panic), cs, nil, nil)
 		default:
 			if kind, what := c09Compare(cfg, seq, r.Batches); kind != "" {
-				a.fail(fmt.Sprintf("C09|det|%s|cols=%d", kind, cfg.Cols), what, cs, c09Expected(seq, cfg.N), r.Batches)
+				sig := fmt.Sprintf("C09|det|%s|cols=%d", kind, cfg.Cols)
+				if cfg.NestedKey {
+					sig += "|nested-path-key"
+				}
+				a.fail(sig, what, cs, c09Expected(seq, cfg.N), r.Batches)
 			}
 		}
 		if idx == 40 {
